@@ -25,7 +25,7 @@ RULE = (
     "non-roots; non-trivial = tree with >= 3 nodes; distinct = distinct (tree fingerprint, predicate sets / xpath text)"
 )
 ASSUMPTIONS = ["predicates are pure functions of the offered node"]
-MUST_SEE = ["abandoned_traversals", "xpath_after_class_redefinition", "skip_self_with_prune", "start_pruned", "prune_not_filter_with_desc", "list_fields", "index_ge_10_match", "xpath_nonempty", "malformed_rejected", "calculate_xpath_nodes", "gather_calls", "two_anywhere_left_steps", "recalculated_after_change"]
+MUST_SEE = ["falsy_callable_predicates", "abandoned_traversals", "xpath_after_class_redefinition", "skip_self_with_prune", "start_pruned", "prune_not_filter_with_desc", "list_fields", "index_ge_10_match", "xpath_nonempty", "malformed_rejected", "calculate_xpath_nodes", "gather_calls", "two_anywhere_left_steps", "recalculated_after_change"]
 CONFIG = {
     "quick": {"shards": 16, "small_trees": 200, "exh_n": 4, "large_trees": 60, "xpaths": 40, "watchdog_s": 600},
     "thorough": {"shards": 32, "small_trees": 300, "exh_n": 6, "large_trees": 150, "xpaths": 100, "watchdog_s": 3400},
@@ -142,6 +142,11 @@ def run_shard(ctx):
                 plog.append(id(nd))
                 return id(nd) in _pr
 
+            if rng.random() < 0.25:
+                from checks.c05 import FalsyCallable  # predicates as callable objects that are falsy in a boolean context
+
+                f_filter, f_prune = FalsyCallable(f_filter), FalsyCallable(f_prune)
+                ctx.count("falsy_callable_predicates")
             pruned = lambda p, _pr=pr: id(obj[id(p)]) in _pr  # noqa: E731
             keep = lambda p, _fl=fl: id(obj[id(p)]) in _fl  # noqa: E731
             for skip_self in (False, True):
